@@ -7,7 +7,7 @@
    (`batch`) does not raise; for EVERY topological-sort function (SQLAlchemy's is never reached in this class) and every
    CAST / DEFAULT behaviour of the database.  add_column (plain and insert_before/after) is inside the model and the
    correspondence but outside these theorems (its position is decided by SQLAlchemy's topological sort). *)
-From AV Require Import Model.BatchFail Model.Batch Spec.C11 Spec.C10 Proofs.BatchFailProof Proofs.BatchProof.
+From AV Require Import Model.BatchFail Model.Batch Spec.C11 Spec.C10 Proofs.BatchFailProof Proofs.BatchProof Proofs.BatchMainProof.
 
 (* the decider applied to the implementation's output is sound for the property *)
 Theorem C10_decider_sound : forall i o, check_C10 i o = true -> C10_holds i o.
@@ -56,6 +56,35 @@ Proof.
   exact (proj2 (untouched_spec ops T T' H2 H3)).
 Qed.
 Print Assumptions C10_untouched.
+
+(* MAIN THEOREM — the statement the harness evaluates: on inclass_C10 the model's output satisfies the property at full
+   strength (C10_holds: no temporary table, row count, every surviving column present, every cell = the expected cell,
+   untouched columns / PK / constraints / indexes identical and in order, every requested constraint present, inserted
+   columns on the requested side, and the table = the edited description).
+   inclass_C10: recreate='always'; a reflected table (wf_tbl2: column keys = names, all different; constraint and PK columns
+   exist; constraint names distinct; primary keys have columns); operations of the refinement class (no add_column) whose
+   added constraints are not primary keys; each column's type altered at most once; accepted by the specification `edit`. *)
+Theorem C10_main : forall i, inclass_C10 i = true -> C10_holds i (model10 i).
+Proof. exact main10. Qed.
+Print Assumptions C10_main.
+
+(* C10_rows, per cell, for EVERY cast/default behaviour of the database: in every row, the cell of a surviving column (under
+   its new name, at its place in the new table) is the old cell of that column, converted with CAST to the new type exactly
+   when the type class changed; a column that no transfer feeds (an added column) holds what the database fills in *)
+Theorem C10_rows_cell : forall cast dflt i T' nd cm r k' c',
+  inclass_C10 i = true -> edit_all (j_ops i) (j_tbl i) = BOk T' -> batch sa_tsort (j_tbl i) (j_ops i) = BOk (nd, cm) ->
+  In (k', c') (tb_cols T') ->
+  In c' (n_cols nd) /\
+  exists c0, aget k' (tb_cols (j_tbl i)) = Some c0 /\
+    copy_val cast dflt (j_tbl i) cm r c' =
+      (if N.eqb (affinity (c_ty c0)) (affinity (c_ty c')) then src_val (j_tbl i) r k' else cast (c_ty c') (src_val (j_tbl i) r k')).
+Proof. exact cell_value. Qed.
+Print Assumptions C10_rows_cell.
+
+Theorem C10_rows_default : forall cast dflt T cm r c,
+  (forall e, In e cm -> fst (fst e) <> c_name c) -> copy_val cast dflt T cm r c = dflt c.
+Proof. exact cell_default. Qed.
+Print Assumptions C10_rows_default.
 
 (* no temporary table: when the statement sequence of _create runs without an exception and the transaction is committed,
    the table is under its original name with the new definition and the copied rows, and the temporary name is free *)
@@ -143,3 +172,9 @@ Proof.
   - eexists; eexists; eexists. repeat split; vm_compute; reflexivity.
   - eexists; eexists. split; vm_compute; reflexivity.
 Qed.
+
+(* the main theorem's class is inhabited by a sequence touching every kind of element, with rows and a type change *)
+Example C10_main_nonvacuous :
+  let i := mkIn10 w_tbl w_rows nv_ops [(2, VInt 1, VText [49]); (2, VNull, VNull)] [] true in
+  inclass_C10 i = true /\ (exists nd rows, model10 i = OutOk nd rows false /\ length rows = 2%nat) /\ check_C10 i (model10 i) = true.
+Proof. split; [vm_compute; reflexivity|]. split; [eexists; eexists; split; vm_compute; reflexivity|vm_compute; reflexivity]. Qed.
